@@ -147,15 +147,30 @@ class Gen:
             gnav = "vh::nth(%s.%s(), ip[%d])" % (nav, g["name"], depth)
             self.emit_level(mname, g, path + [g["name"]], gnav, depth + 1, M)
 
+    def emit_tagkeys(self, lv, path, tagpath):
+        """one specialisation per level-member tag: tag type -> key relative to the message"""
+        L = self.out
+        for f in lv.get("fields", []):
+            if not self.is_const_field(f):
+                L.append('VH_TAGKEY(%s::%s, "%s")' % (tagpath, f["name"], "/".join(path + [f["name"]])))
+        for d in lv.get("data", []):
+            L.append('VH_TAGKEY(%s::%s, "%s")' % (tagpath, d["name"], "/".join(path + [d["name"]])))
+        for g in lv.get("groups", []):
+            L.append('VH_TAGKEY(%s::%s, "%s")' % (tagpath, g["name"], "/".join(path + [g["name"]])))
+            self.emit_tagkeys(g, path + [g["name"]], "%s::%s" % (tagpath, g["name"]))
+
     def generate(self):
         L = self.out
         L.append("// generated by tools/viewgen.py - names and kinds only")
         L.append("#include <%s/%s.hpp>" % (self.ns, self.ns))
+        for m in self.S["messages"]:
+            self.emit_tagkeys(m, [], "::%s::schema::messages::%s" % (self.ns, m["name"]))
         L.append("namespace {")
         for m in self.S["messages"]:
             M = "::%s::messages::%s<VH_BYTE>" % (self.ns, m["name"])
             L.append("// ---- message %s" % m["name"])
             L.append('VH_REG_MESSAGE("%s", %s);' % (m["name"], M))
+            L.append('VH_REG_VISIT("%s", %s);' % (m["name"], M))
             self.emit_level(m["name"], m, [], "m", 0, M)
         L.append("} // namespace")
         return "\n".join(L) + "\n"
